@@ -40,17 +40,19 @@ type schedStepRes struct {
 }
 
 type schedRes struct {
-	Points       int64          `json:"points"`
-	Paused       bool           `json:"paused"`
-	PausedAt     string         `json:"pausedAt"`
-	YBlocked     bool           `json:"yBlocked"`
-	YStalled     bool           `json:"yStalled"`
-	Labels       []string       `json:"labels"`
-	LabelsBefore []string       `json:"labelsBefore"` // lock operations the held party had performed before its hold point
-	X            []schedStepRes `json:"x"`
-	Y            []schedStepRes `json:"y"`
-	Pre          []schedStepRes `json:"pre"`
-	Post         []schedStepRes `json:"post"`
+	Points       int64    `json:"points"`
+	Paused       bool     `json:"paused"`
+	PausedAt     string   `json:"pausedAt"`
+	YBlocked     bool     `json:"yBlocked"`
+	YStalled     bool     `json:"yStalled"`
+	Labels       []string `json:"labels"`
+	LabelsBefore []string `json:"labelsBefore"` // lock operations the held party had performed before its hold point
+	// lock operations the held goroutine itself performed after its release (the other goroutines of its party are not held)
+	LabelsOfHeldAfter []string       `json:"labelsOfHeldAfter"`
+	X                 []schedStepRes `json:"x"`
+	Y                 []schedStepRes `json:"y"`
+	Pre               []schedStepRes `json:"pre"`
+	Post              []schedStepRes `json:"post"`
 	// second hold (see sim.SchedArgs)
 	AuxPaused   bool     `json:"auxPaused"`
 	AuxPausedAt string   `json:"auxPausedAt"`
@@ -218,7 +220,17 @@ func c11Run(w *kernel.Worker, j *c11Job, rep *kernel.Report) (*Fail, error) {
 			}
 			when := ""
 			if qclass == "records" {
-				when = "/held-before-the-segment-type-check"
+				// Only the goroutine that reached the hold point is held; the other goroutines of the query run on. "Held
+				// before the check" is therefore only claimed when the held goroutine itself goes on to perform the check
+				// after its release; if some goroutine of the query has performed it already the hold came after it; in the
+				// remaining case the searching goroutine was never held and met the rotation on its own (same root cause,
+				// timing not owned by this schedule).
+				when = "/searching-goroutine-not-held"
+				for _, l := range r.LabelsOfHeldAfter {
+					if strings.Contains(l, "writer.IsSegKeyUnrotated") {
+						when = "/held-before-the-segment-type-check"
+					}
+				}
 				for _, l := range r.LabelsBefore {
 					if strings.Contains(l, "writer.IsSegKeyUnrotated") {
 						when = "/held-after-the-segment-type-check"
